@@ -36,16 +36,21 @@ def tdivR2exp (x : Int) (k : Nat) : Int :=
 
 /-! ### the commitment scheme -/
 
-/-- `Π_i g_i^{m_i}` multiplied into `c`, through the tables (`TMCG_MAX_FPOWM_N` generators have one) -/
+/-- one factor `g_i^m`: through the table (`TMCG_MAX_FPOWM_N` generators have one), with or without
+    timing attack protection -/
+def comFactor (P : GrothPub) (prot : Bool) (i : Nat) (m : Int) : Except Err Int :=
+  let p := P.S.G.p
+  let gi := P.cg.getD i 0
+  if i < Gen.TMCG_MAX_FPOWM_N then
+    (if prot then fspowm (P.cgT.getD i ⟨[]⟩) gi m p else fpowm (P.cgT.getD i ⟨[]⟩) gi m p)
+  else (if prot then spowm gi m p else mpzPowm gi m p)
+
+/-- `Π_i g_i^{m_i}` multiplied into `c` -/
 def comProd (P : GrothPub) (prot : Bool) : List Int → Nat → Int → Except Err Int
   | [], _, c => .ok c
   | m :: ms, i, c => do
-    let p := P.S.G.p
-    let gi := P.cg.getD i 0
-    let tmp ← if i < Gen.TMCG_MAX_FPOWM_N then
-        (if prot then fspowm (P.cgT.getD i ⟨[]⟩) gi m p else fpowm (P.cgT.getD i ⟨[]⟩) gi m p)
-      else (if prot then spowm gi m p else mpzPowm gi m p)
-    comProd P prot ms (i + 1) (c * tmp % p)
+    let tmp ← comFactor P prot i m
+    comProd P prot ms (i + 1) (c * tmp % P.S.G.p)
 
 /-- `PedersenCommitmentScheme::CommitBy` (with timing attack protection) -/
 def commitBy (P : GrothPub) (r : Int) (m : List Int) : Except Err Int := do
@@ -195,27 +200,39 @@ def skcChecks (P : GrothPub) (c : Int) (fprime m : List Int) (x cd cDelta ca e :
     let rhs := (m.foldl (fun acc mi => acc * ((mi - x) % q) % q) 1) * e % q
     pure (rhs == lhs)
 
-/-- `GrothSKC::Verify_*` (the overload with `f'`, optimisations on) -/
-def skcVerify (mode : Mode) (P : GrothPub) (c : Int) (fprime m : List Int) : M Unit := do
-  if P.cg.length < m.length ∨ m.length ≠ fprime.length ∨ m.length < 2 then abort
-  let n := m.length
-  let q := P.S.G.q
-  let x ← gChalV mode P false (fun _ => P.cg ++ m ++ comPqh P)
+/-- the verifier's reads of the second move -/
+def skcRead1 : M (Int × Int × Int) := do
   let cd ← recv
   let cDelta ← recv
   let ca ← recv
   if !(← good) then reject
-  let e ← gChalV mode P true (fun _ => P.cg ++ m ++ [x, cd, cDelta, ca])
+  pure (cd, cDelta, ca)
+
+/-- the verifier's reads of the fourth move: `f_1 … f_n`, `z`, `f_{Δ_1} … f_{Δ_{n-1}}`, `z_Δ` -/
+def skcRead2 (n : Nat) : M (List Int × Int × List Int × Int) := do
   let f ← readChecked (fun _ => true) n
   let z ← recv
   let fD ← readChecked (fun _ => true) (n - 1)
   let zDelta ← recv
   if !(← good) then reject
-  if !(testMembership P cd && testMembership P ca && testMembership P cDelta) then reject
-  if ¬ z < q then reject
-  if !(f.all fun v => v < q) then reject
-  if ¬ zDelta < q then reject
-  if !(fD.all fun v => v < q) then reject
+  pure (f, z, fD, zDelta)
+
+/-- `c_d, c_a, c_Δ ∈ C_ck` and `z, f_i, z_Δ, f_{Δ_i} < q` (no lower bounds) -/
+def skcRanges (P : GrothPub) (cd cDelta ca : Int) (f : List Int) (z : Int) (fD : List Int) (zDelta : Int) :
+    Bool :=
+  testMembership P cd && testMembership P ca && testMembership P cDelta &&
+  decide (z < P.S.G.q) && (f.all fun v => v < P.S.G.q) && decide (zDelta < P.S.G.q) &&
+  (fD.all fun v => v < P.S.G.q)
+
+/-- `GrothSKC::Verify_*` (the overload with `f'`, optimisations on) -/
+def skcVerify (mode : Mode) (P : GrothPub) (c : Int) (fprime m : List Int) : M Unit := do
+  if P.cg.length < m.length ∨ m.length ≠ fprime.length ∨ m.length < 2 then abort
+  let n := m.length
+  let x ← gChalV mode P false (fun _ => P.cg ++ m ++ comPqh P)
+  let (cd, cDelta, ca) ← skcRead1
+  let e ← gChalV mode P true (fun _ => P.cg ++ m ++ [x, cd, cDelta, ca])
+  let (f, z, fD, zDelta) ← skcRead2 n
+  if !skcRanges P cd cDelta ca f z fD zDelta then reject
   let alpha ← draw
   let ok ← liftE (skcChecks P c fprime m x cd cDelta ca e f z (fD ++ [0]) zDelta alpha)
   if !ok then reject
@@ -291,10 +308,10 @@ def grothProve (mode : Mode) (P : GrothPub) (pi : List Nat) (R : List Int) (e E 
   let q := P.S.G.q
   let x ← grothMove1 P pi E
   let t ← grothTs (gChalP mode P) P e E x.c x.cd x.Ed n 0 (P.lnizk : Int)
-  let (f, Z) := grothResp q pi R x t
-  sendAll f
-  send Z
-  let lambda ← gChalP mode P (fun _ => grothHashL P e E t f Z)
+  let fZ := grothResp q pi R x t
+  sendAll fZ.1
+  send fZ.2
+  let lambda ← gChalP mode P (fun _ => grothHashL P e E t fZ.1 fZ.2)
   let rho := (lambda * x.r % q + x.rd) % q
   skcProve mode P pi rho (grothMsgs q lambda t)
 
@@ -347,26 +364,36 @@ def grothFinal (P : GrothPub) (e E : List Card) (t f : List Int) (Ed : Card) (Z 
     let r2 ← fpowm P.S.tabH P.S.h Z p
     pure (l1 == r1 && l2 == r2)
 
-/-- `GrothVSSHE::Verify_*` -/
-def grothVerify (mode : Mode) (P : GrothPub) (e E : List Card) : M Bool := do
-  if P.cg.length < e.length ∨ e.length ≠ E.length ∨ E.length < 2 then abort
-  let n := e.length
-  let p := P.S.G.p; let q := P.S.G.q
+/-- the verifier's reads of the first move -/
+def grothRead1 : M (Int × Int × Card) := do
   let c ← recv
   let cd ← recv
   let Ed1 ← recv
   let Ed2 ← recv
   if !(← good) then reject
-  let t ← grothTs (gChalV mode P false) P e E c cd ⟨Ed1, Ed2⟩ n 0 (P.lnizk : Int)
+  pure (c, cd, ⟨Ed1, Ed2⟩)
+
+/-- the verifier's reads of the third move -/
+def grothRead2 (n : Nat) : M (List Int × Int) := do
   let f ← readChecked (fun _ => true) n
   let Z ← recv
   if !(← good) then reject
+  pure (f, Z)
+
+/-- `GrothVSSHE::Verify_*` -/
+def grothVerify (mode : Mode) (P : GrothPub) (e E : List Card) : M Bool := do
+  if P.cg.length < e.length ∨ e.length ≠ E.length ∨ E.length < 2 then abort
+  let n := e.length
+  let p := P.S.G.p; let q := P.S.G.q
+  let (c, cd, Ed) ← grothRead1
+  let t ← grothTs (gChalV mode P false) P e E c cd Ed n 0 (P.lnizk : Int)
+  let (f, Z) ← grothRead2 n
   let lambda ← gChalV mode P false (fun _ => grothHashL P e E t f Z)
-  let ok ← liftE (grothChecks1 mode P c cd ⟨Ed1, Ed2⟩ f Z)
+  let ok ← liftE (grothChecks1 mode P c cd Ed f Z)
   if !ok then reject
   let cl ← liftE (mpzPowm c lambda p)
   skcVerify mode P (cl * cd % p) f (grothMsgs q lambda t)
-  let ok ← liftE (grothFinal P e E t f ⟨Ed1, Ed2⟩ Z)
+  let ok ← liftE (grothFinal P e E t f Ed Z)
   if !ok then reject
   pure true
 
